@@ -161,6 +161,47 @@ func init() {
 					}
 					c.Violate("C04:damaged-delivered:"+kind, "a message altered in transit was handed to the inbound handler as a good message", rep)
 				}
+				// the altered frame itself (the sender writes a frame without reading, so it is the clean frame
+				// with the edits applied): if the reference refuses it, its message must not be delivered at
+				// all - not even when the payload happens to be undamaged (header length / offset clause)
+				for j, sp := range spans {
+					first := -1
+					for o := range edits {
+						if o >= sp[0] && o < sp[1] && (first < 0 || o < first) {
+							first = o
+						}
+					}
+					if first < 0 || j >= len(clean.b.tw.inbox) {
+						continue
+					}
+					var fr []byte
+					for o := sp[0]; o < sp[1]; o++ {
+						if e, ok := edits[o]; ok {
+							switch e.kind {
+							case 's':
+								fr = append(fr, e.val...)
+							case 'i':
+								fr = append(append(fr, e.val...), clean.a.wire[o])
+							}
+							continue
+						}
+						fr = append(fr, clean.a.wire[o])
+					}
+					accepted := false
+					for _, o := range sa.outbox {
+						if _, ok := refAccepts(fr, len(fbbCompressed(o))); ok {
+							accepted = true
+						}
+					}
+					if accepted {
+						continue
+					}
+					for _, data := range pr.b.tw.inbox {
+						if bytes.Equal(data, clean.b.tw.inbox[j]) {
+							c.Violate("C04:invalid-frame-delivered:"+kind, "the message of a transfer whose framing (SOH header length/offset, block structure, checksum, size) no longer holds was handed to the inbound handler", rep)
+						}
+					}
+				}
 				for mid, rejected := range pr.a.tw.sent {
 					if !rejected && !intact[mid] {
 						c.Violate("C04:damaged-marked-sent:"+kind, "the sender recorded message "+mid+" as sent although the receiver's handler never got it intact", rep)
@@ -188,6 +229,39 @@ func init() {
 					for _, v := range []byte{orig + 1, orig ^ 0x80, byte(c.Rng.Intn(256))}[:c.Budget(1, 3)] {
 						if v != orig {
 							try(map[int]edit{o: {'s', []byte{v}}}, "substitute", o > lo+8)
+						}
+					}
+				}
+				// structural bytes: SOH, header length, the NULs, every offset digit, first STX and its length,
+				// EOT and the checksum byte, each replaced by values of every kind
+				{
+					w := clean.a.wire
+					pos := []int{lo, lo + 1}
+					j := lo + 2
+					for j < hi && w[j] != 0 {
+						j++
+					}
+					if lo+2 < j {
+						pos = append(pos, lo+2, j-1) // first and last title byte
+					}
+					pos = append(pos, j) // NUL after the title
+					j++
+					for j < hi && w[j] != 0 {
+						pos = append(pos, j) // offset digits
+						j++
+					}
+					pos = append(pos, j, j+1, j+2, hi-2, hi-1)
+					for _, o := range pos {
+						if o < lo || o >= hi {
+							continue
+						}
+						orig := w[o]
+						seen := map[byte]bool{orig: true}
+						for _, v := range []byte{orig + 1, 'x', '5', 0, 0xff, ' ', '+', 1, 2, 4}[:c.Budget(6, 10)] {
+							if !seen[v] {
+								seen[v] = true
+								try(map[int]edit{o: {'s', []byte{v}}}, "substitute-structural", true)
+							}
 						}
 					}
 				}
